@@ -250,6 +250,9 @@ LAYOUT_SCHEMAS = [
     ("same-opcode-lengths", " MV A, [X]\n MV A, [X+0x05]\nA1: defb 0xA1\n MV [Y-0x03], A\n MV [Y], A\nA2: defb 0xA2\n MV A, [(0x10)]\n MV A, [(0x10)+0x02]\nA3: defb 0xA3\n", {"A1": 0xA1, "A2": 0xA2, "A3": 0xA3}),
     # code placed with .ORG above the default .bss base while .data and .bss exist
     ("high-org", "SECTION data\nD1: defb 0xA2\nSECTION bss\nB1: defs 2\nSECTION code\n.ORG 0xC0000\nH1: defb 0xA1\n MV X, H1\nH2: defb 0xA4\n", {"D1": 0xA2, "H1": 0xA1, "H2": 0xA4}),
+    # an origin given by a label that is defined further down: rejecting the program is fine, placing the statements behind it at one
+    # address in pass one and at another in pass two is not
+    ("may-reject:org-forward-symbol", ".ORG FWD\nF1: defb 0xA1\n MV X, F1\nF2: defb 0xA4\n.ORG 0x300\nFWD: defb 0xA2\n", {"F1": 0xA1, "F2": 0xA4, "FWD": 0xA2}),
     # a section name the assembler does not know: rejecting the program is fine, laying it out inconsistently is not
     ("may-reject:custom-section", "SECTION data\nD1: defb 0xA1\nSECTION bss\nB1: defs 4\nSECTION extra\nX1: defb 0xA5\nX2: defb 0xA6\nSECTION code\nC1: defb 0xA3\n", {"D1": 0xA1, "X1": 0xA5, "X2": 0xA6, "C1": 0xA3}),
 ]
